@@ -279,7 +279,20 @@ func buildIntrinsics() map[string]intrinsic {
 		name := m.goString(a[1], "SetField name")
 		st := (*cell).(Struct)
 		v := a[2].(Iface)
-		st[fieldIndex(obj.T, name)] = copyVal(v.V)
+		idx := fieldIndex(obj.T, name)
+		// like a decoder: a pointer value for a non-pointer field means "key absent" when nil (the field
+		// keeps its value) and the pointed-to value otherwise, so that the stand-in stays valid when the
+		// code under test changes the field between T and *T
+		ft := obj.T.Underlying().(*types.Pointer).Elem().Underlying().(*types.Struct).Field(idx).Type()
+		if vp, isPtr := v.T.Underlying().(*types.Pointer); isPtr {
+			if _, fieldIsPtr := ft.Underlying().(*types.Pointer); !fieldIsPtr && types.Identical(vp.Elem(), ft) {
+				if pc, _ := v.V.(*Value); pc != nil {
+					st[idx] = copyVal(*pc)
+				}
+				return nil
+			}
+		}
+		st[idx] = copyVal(v.V)
 		return nil
 	}
 	t[apiPkg+".Concurrent"] = func(m *Machine, fr *frame, a []Value) Value {
